@@ -457,6 +457,17 @@ def decision_signature(base, d, py, ts):
         return 'ts-rejects-emitted-action:' + str(d.get('action'))
     if 'err' in ts and 'is not defined' in ts.get('msg', '') and 'action' in ts.get('msg', ''):
         return 'ts-cannot-resolve-action:' + str(d.get('action'))
+    if 'err' in ts and ts['err'] == 'RangeError':
+        # a decision whose common_path points at a LINE of a string: the index is from Python's line table
+        v = base; path = list(d.get('common_path', []))
+        try:
+            while path and not isinstance(v, str):
+                v = v[path[0]]; path = path[1:]
+        except Exception:
+            v = None
+        if isinstance(v, str) and path and isinstance(path[0], int) and has_exotic(v) \
+           and path[0] < len(v.splitlines(True)) and path[0] >= len(js_split(v)):
+            return 'ts-apply-throws:decision-path-names-line-of-string-js-splits-differently'
     if 'err' in ts: return 'ts-apply-throws:' + ts['err']
     return 'ts-apply-differs:other'
 
